@@ -1831,10 +1831,14 @@ namespace bloch::compiler {
                                  "conditional statement requires 'boolean' or 'bit' condition");
             }
         }
-        if (node.thenBranch)
+        if (node.thenBranch) {
+            ScopeGuard scope(*this);
             node.thenBranch->accept(*this);
-        if (node.elseBranch)
+        }
+        if (node.elseBranch) {
+            ScopeGuard scope(*this);
             node.elseBranch->accept(*this);
+        }
     }
 
     void SemanticAnalyser::visit(ForStatement& node) {
